@@ -19,7 +19,7 @@ theorem handlersOf_mem {L : GSt} {cls : Cls} {k : Nat} {h : HRef} {d : Option Na
 
 theorem newIH_keep (c : Cfg) (src : Src) (skip : Bool) (cb : Option Nat) :
     Keep c (newIH c src skip cb).2 ∧ (newIH c src skip cb).2.code = c.code :=
-  ⟨⟨fun x hx => List.mem_append_left _ hx, rfl, [], rfl, by simp⟩, rfl⟩
+  ⟨⟨List.prefix_append _ _, rfl, rfl, [], rfl, by simp⟩, rfl⟩
 
 macro "k_eq" : term => `((by exact Keep.of_eq rfl rfl rfl))
 macro "k_cons" : term => `((by exact Keep.cons _ rfl rfl rfl (by rfl)))
@@ -30,7 +30,7 @@ theorem step_facts (P : Prog) (c0 : Cfg) : StepFacts c0 (rcfg (step P c0)) := by
   unfold step
   split
   · rename_i hc
-    exact ⟨⟨[], rfl, by simp⟩, fun x hx => hx, fun i hi _ => by simp [rcfg, hc] at hi, fun hf _ => hf,
+    exact ⟨Or.inl rfl, ⟨[], rfl, by simp⟩, List.prefix_refl _, fun i hi _ => by simp [rcfg, hc] at hi, fun hf _ => hf,
       fun h1 h2 => by simp only [rcfg] at h2; rw [h1] at h2; cases h2⟩
   · rename_i ins rest hc
     have k0 : Keep c0 { c0 with code := rest } := Keep.of_eq rfl rfl rfl
@@ -45,7 +45,7 @@ theorem step_facts (P : Prog) (c0 : Cfg) : StepFacts c0 (rcfg (step P c0)) := by
       split
       · exact facts_plain hc s0 k0
       · split
-        · refine ⟨⟨[], rfl, by simp⟩, fun x hx => hx, fun i hi hb => ?_, fun a b => hfq a b _, fun _ h2 => by cases h2⟩
+        · refine ⟨Or.inl rfl, ⟨[], rfl, by simp⟩, List.prefix_refl _, fun i hi hb => ?_, fun a b => hfq a b _, fun _ h2 => by cases h2⟩
           simp [push, Cfg.setCtx] at hi
           rcases hi with rfl | rfl | hi
           · cases hb
@@ -53,7 +53,7 @@ theorem step_facts (P : Prog) (c0 : Cfg) : StepFacts c0 (rcfg (step P c0)) := by
           · left; simp [hc, hi]
         · have g := raise_good ({ c0 with code := rest, L := { c0.L with forceQuit := false } } : Cfg) .err
           obtain ⟨new, e, hq⟩ := g.2.tr
-          refine ⟨⟨new, e, fun t ht hl => by rw [hq t ht] at hl; cases hl⟩, fun x hx => g.2.handlers x hx, fun i hi _ => ?_, fun a b => hfq a b _,
+          refine ⟨Or.inl g.2.tickets, ⟨new, e, fun t ht hl => by rw [hq t ht] at hl; cases hl⟩, g.2.handlers, fun i hi _ => ?_, fun a b => hfq a b _,
             fun _ h2 => by rw [g.2.fq] at h2; cases h2⟩
           left; rw [hc]; exact g.1.subset hi
     | quitCb =>
@@ -87,7 +87,7 @@ theorem step_facts (P : Prog) (c0 : Cfg) : StepFacts c0 (rcfg (step P c0)) := by
           · exact facts_plain hc (by simp [hcode2]) (hk2.trans k_cons)
         · rename_i p hp
           obtain ⟨new, e', hq⟩ := hk2.tr
-          refine facts_gen hc ⟨hk2.handlers, hk2.fq, Tr.iter q e p (c2.ctx q).sources ((c2.ctx q).ready.filter fun g => g.sig.prio = p) :: new, by simp [push, Cfg.gtrace, e'], ?_⟩ ?_
+          refine facts_gen hc ⟨hk2.handlers, hk2.fq, Or.inl hk2.tickets, Tr.iter q e p (c2.ctx q).sources ((c2.ctx q).ready.filter fun g => g.sig.prio = p) :: new, by simp [push, Cfg.gtrace, e'], ?_⟩ ?_
           · intro t ht hl
             rcases List.mem_cons.1 ht with rfl | ht
             · exact ⟨⟨mode, by simp [hc]⟩, hp, rfl⟩
@@ -129,7 +129,7 @@ theorem step_facts (P : Prog) (c0 : Cfg) : StepFacts c0 (rcfg (step P c0)) := by
         intro i hi hb
         simp [push] at hi
         rcases hi with rfl | rfl | rfl | hi
-        · right; exact Or.inr ⟨q, g, by simp [hc], rfl, rfl, by simpa using hf⟩
+        · right; exact Or.inr ⟨q, g, by simp [hc], rfl, rfl, by simpa using hf, rfl⟩
         · cases hb
         · cases hb
         · exact Or.inl hi
@@ -146,21 +146,24 @@ theorem step_facts (P : Prog) (c0 : Cfg) : StepFacts c0 (rcfg (step P c0)) := by
             simp [push] at hj
             rcases hj with rfl | rfl | hj
             · right; exact ⟨⟨i, by simp [hc], hk, by simp [push, hc]⟩, handlersOf_mem hk, by simpa using hf⟩
-            · right; exact Or.inl ⟨i, by simp [hc]⟩
+            · right; exact Or.inl ⟨i, by simp [hc], rfl⟩
             · exact Or.inl hj
         · exact facts_plain hc sr k_cons
       · split
-        · refine facts_gen hc (k0.toL.trans k_eq) ?_
+        · rename_i hi0
+          refine facts_gen hc (k0.toL.trans k_eq) ?_
           intro j hj hb
           simp [push] at hj
           rcases hj with rfl | rfl | hj
           · cases hb
-          · right; exact Or.inl ⟨i, by simp [hc]⟩
+          · right; exact Or.inl ⟨i, by simp [hc], by omega⟩
           · exact Or.inl hj
         · exact facts_plain hc sr k_cons
       · exact facts_plain hc sr k_cons
     | catchRun => exact facts_plain hc s0 k0
-    | endRun q g => exact facts_plain hc sr k_cons
+    | endRun q g =>
+      exact facts_gen hc ⟨List.prefix_refl _, rfl, Or.inr (by simp [TicketOK, hc]; rfl), [_], rfl, by simp [Tr.quiet]⟩
+        (fun i hi _ => Or.inl hi)
     | gAfter q sid => exact facts_plain hc sr k_eq
     | kill s => exact facts_good hc (raise_good _ _) sr k_cons
     | callH h d s =>
@@ -187,11 +190,17 @@ theorem step_facts (P : Prog) (c0 : Cfg) : StepFacts c0 (rcfg (step P c0)) := by
       simp only
       split
       · exact facts_good hc (raise_good _ _) s0 k0
-      · exact facts_push hc _ brg sr k_cons
+      · refine facts_gen hc ⟨List.prefix_refl _, rfl, Or.inr (by simp [TicketOK, hc, push, Cfg.trace]), [_], rfl, by simp [Tr.quiet]⟩ ?_
+        intro i hi hb
+        simp [push] at hi
+        rcases hi with rfl | hi
+        · cases hb
+        · exact Or.inl hi
     | gWait cls t q =>
       simp only
       split
-      · exact facts_plain hc sr k_cons
+      · exact facts_gen hc ⟨List.prefix_refl _, rfl, Or.inr (by simp [TicketOK, hc, Cfg.trace]), [_], rfl, by simp [Tr.quiet]⟩
+          (fun i hi _ => Or.inl hi)
       · split
         · exact facts_plain hc sr k_cons
         · exact facts_push hc _ brg s0 k0
@@ -212,7 +221,7 @@ theorem step_facts (P : Prog) (c0 : Cfg) : StepFacts c0 (rcfg (step P c0)) := by
       · exact facts_good hc (raise_good _ _) s0 k0
       · exact facts_plain hc sr k_cons
     | pushModal scr args =>
-      exact facts_push hc _ brg sr (by exact ⟨fun _ h => h, rfl, [_, _], rfl, by simp [Tr.quiet]⟩)
+      exact facts_push hc _ brg sr (by exact ⟨List.prefix_refl _, rfl, rfl, [_, _], rfl, by simp [Tr.quiet]⟩)
     | modalRet e => exact facts_plain hc sr k_cons
     | closeScreen frm =>
       simp only
@@ -318,7 +327,7 @@ theorem step_facts (P : Prog) (c0 : Cfg) : StepFacts c0 (rcfg (step P c0)) := by
       · exact facts_plain hc sr k_eq
       · exact facts_good hc (startRequest_good _ _ _ _) sr (k_then (newIH_keep _ _ _ _).1)
     | blockingInput scr cont =>
-      exact facts_good' hc (startRequest_good _ _ _ _) [.waitInput c0.A.ihs.length] brg (by exact sr) (by exact ⟨fun x hx => List.mem_append_left _ hx, rfl, [], rfl, by simp⟩)
+      exact facts_good' hc (startRequest_good _ _ _ _) [.waitInput c0.A.ihs.length] brg (by exact sr) (by exact ⟨List.prefix_append _ _, rfl, rfl, [], rfl, by simp⟩)
     | waitInput ih =>
       simp only
       split
